@@ -20,7 +20,7 @@ def run(ctx):
     d2 = vlib.tlc(ctx, "telnet", "Telnet", "Telnet_nodeadline.cfg")
     if d1.violated != "CleanStream" or not d2.error:
         raise vlib.Undecided("deviation configurations no longer exhibit OverRead / the missing deadline")
-    rounds = 1 if ctx.tier == "quick" else 8
+    rounds = 1 if ctx.tier == "quick" else 40
     total = acc_total = 0
     allrows = []
     for r in range(rounds):
